@@ -27,6 +27,7 @@ import (
 
 	corev1 "k8s.io/api/core/v1"
 	kerrors "k8s.io/apimachinery/pkg/api/errors"
+	metav1 "k8s.io/apimachinery/pkg/apis/meta/v1"
 	"k8s.io/apimachinery/pkg/types"
 	"k8s.io/client-go/kubernetes"
 	"k8s.io/utils/ptr"
@@ -394,7 +395,8 @@ func (r *Reconciler) Reconcile(ctx context.Context, req reconcile.Request) (reco
 		// Set oldest revision to the lowest numbered non-current revision
 		// and record its index. The current revision must never be garbage
 		// collected.
-		if revisionNum < oldestRevision {
+		// A revision that another owner controls is not ours to delete.
+		if c := metav1.GetControllerOf(rev); (c == nil || c.UID == p.GetUID()) && revisionNum < oldestRevision {
 			oldestRevision = revisionNum
 			oldestRevisionIndex = index
 		}
